@@ -458,6 +458,67 @@ def JFrame.rows : JFrame → List (List Cell)
 def JStream.rows (s : JStream) : List (List Cell) := s.frames.flatMap JFrame.rows
 def AStream.rows (s : AStream) : List (List Cell) := s.batches.flatten
 
+/-! ## One function per JSON-family encoding
+
+The JSON renderer and the line-oriented (Unix) renderer have separate code for every frame
+kind, and each renderer has a buffered `render()` for tables; each is its own model function
+here (all of them convert cells with `to_json` in the code as it stands), so the
+correspondence names the encoding that departs and the agreement between them is a theorem
+(`C20_json_family_agree`) rather than a definition. -/
+
+/-- `JsonRenderer::stream_batch`: `batch.iter().map(|row| row.iter().map(|v| v.to_json()))`. -/
+def jsonBatchFrame (ext : Ext) (rows : List Row) : List (List Cell) := rows.map (jsonRow ext)
+
+/-- `JsonRenderer::stream_row`. -/
+def jsonRowFrame (ext : Ext) (r : Row) : List Cell := r.map (toJson ext)
+
+/-- Cell conversion loop of `UnixRenderer::stream_batch` / `stream_row` (unix.rs). -/
+def unixRow (ext : Ext) (r : Row) : List Cell := r.map (toJson ext)
+
+/-- `UnixRenderer::stream_batch`. -/
+def unixBatchFrame (ext : Ext) (rows : List Row) : List (List Cell) := rows.map (unixRow ext)
+
+/-- `UnixRenderer::stream_row`. -/
+def unixRowFrame (ext : Ext) (r : Row) : List Cell := unixRow ext r
+
+def unixFrames (ext : Ext) (batchMode : Bool) (sel : List (Batch × List Row)) : List JFrame :=
+  sel.flatMap fun p =>
+    if batchMode then [JFrame.batch (unixBatchFrame ext p.2)]
+    else p.2.map fun r => JFrame.row (unixRowFrame ext r)
+
+/-- `write_json` driven with the Unix renderer. -/
+def writeUnix (ext : Ext) (cfg : Settings) (w : Writer) (batchMode : Bool) (schema : Schema)
+    (batches : List Batch) : JStream :=
+  let r := select cfg w (idColOf schema) WState.init 0 batches
+  { cols := schema.map fun c => (c.name, c.logical)
+    frames := unixFrames ext batchMode r.1
+    endCount := r.2.emitted }
+
+/-- Rows the writer emits (scalar rows, in order). -/
+def emittedRows (cfg : Settings) (w : Writer) (schema : Schema) (batches : List Batch) : List Row :=
+  (select cfg w (idColOf schema) WState.init 0 batches).1.flatMap fun p => p.2
+
+/-- Decoded buffered rendering of a table (`render(Response::ok_table(..))`). The text
+rendering has no count. -/
+structure Rendered where
+  status : Nat
+  count : Option Nat
+  cols : List (Bytes × Bytes)
+  rows : List (List Cell)
+  deriving Repr
+
+/-- `JsonRenderer::render`, `ResponseBody::Table`. -/
+def renderTableJson (ext : Ext) (schema : Schema) (rows : List Row) (count : Nat) : Rendered :=
+  ⟨200, some count, schema.map fun c => (c.name, c.logical), rows.map fun r => r.map (toJson ext)⟩
+
+/-- `UnixRenderer::render`, `ResponseBody::Table`: `200 OK\n{"columns":[[n,t]..],"rows":[..]}\n`. -/
+def renderTableUnix (ext : Ext) (schema : Schema) (rows : List Row) (_count : Nat) : Rendered :=
+  ⟨200, none, schema.map fun c => (c.name, c.logical), rows.map fun r => r.map (toJson ext)⟩
+
+/-- `ArrowRenderer::render` (JSON fallback), `ResponseBody::Table`. -/
+def renderTableArrow (ext : Ext) (schema : Schema) (rows : List Row) (count : Nat) : Rendered :=
+  ⟨200, some count, schema.map fun c => (c.name, c.logical), rows.map fun r => r.map (toJson ext)⟩
+
 /-! ## Equality of decoded cells as the property states it -/
 
 def isNaN (bits : Nat) : Bool := f64Exp bits == 2047 && f64Mant bits != 0
